@@ -191,6 +191,12 @@ def run(prog, rep, tier):
     if len(loops) != 2:
         raise Inconclusive("split_data: expected a loop over environments and a loop over folds", f.node)
     (lo, outer), (lin, inner) = loops
+    if outer["iter"] != DATA and inner["iter"] == DATA:
+        # the fold loop lives in a helper / method defined above its caller: the nesting, not the line numbers, says which loop is the outer one
+        (lo, outer), (lin, inner) = (lin, inner), (lo, outer)
+    nested = any(lin in getattr(fct, "loops", ()) and lo in getattr(fct, "loops", ()) for fct in S.facts if fct.qname == Q)
+    if not nested:
+        raise Inconclusive("split_data: the fold loop is not nested in the loop over the environments", f.node)
     rep.check("FLOW.environments", outer["iter"] == DATA, fwhere(f, outer["node"]), "outer loop over the environments of `data`", "outer loop runs over %s" % fmt(outer["iter"]))
     it = inner["iter"]
     if it[0] == "ext" and it[1] == "enumerate" and len(it[2]) == 1 and it[2][0][0] == "ext" and it[2][0][1] in ("numpy.split", "numpy.array_split") and len(it[2][0][2]) == 2:
@@ -316,6 +322,8 @@ def run(prog, rep, tier):
         vals, why = truth_by_distance(bcond, idx, L)
     if vals == "peeled":
         pass
+    elif vals is None and why.startswith("condition involves other quantities"):
+        rep.unk("LAST.exact", fwhere(f, ap.node), "remainder branch: " + why + " - not read")
     elif vals is None:
         rep.bad("LAST.exact", fwhere(f, ap.node), "remainder branch: " + why)
     else:
@@ -416,7 +424,10 @@ def run(prog, rep, tier):
     if peeled is not None and kind is not None:
         # ... and the remainder goes to the last list of the same container
         last_keys = [("binop", "-", L, ("const", 1))] + ([("const", -1)] if kind == "list" else [])
-        if not (post.recv[0] == "sub" and post.recv[1] == Cn_ and post.recv[2] in last_keys):
+        precv = post.recv
+        if precv[0] == "mu" and precv[1] == lo and precv[2] in outer["init"]:
+            precv = outer["init"][precv[2]]              # last = folds[-1], bound before the loops: the same list under another name
+        if not (precv[0] == "sub" and precv[1] == Cn_ and precv[2] in last_keys):
             rep.bad("FLOW.destination", fwhere(f, post.node), "the remainder is appended to %s, not to the last fold" % fmt(post.recv)[:80])
             kind = None
     okd = kind is not None
@@ -430,8 +441,12 @@ def run(prog, rep, tier):
             okr = ret == ("ext", "list", (("method", Cn, "values", (), ()),), ()) or in_order
         else:
             okr = ret in (Cn, ("ext", "list", (Cn,), ())) or in_order
-    rep.check("RESULT.folds", okr, fwhere(f), "returns the folds in order",
-              "result is %s" % fmt(ret)[:80])
+    if not okr and any(isinstance(x, tuple) and x[:1] == ("obj",) for x in walk(ret)):
+        rep.unk("RESULT.folds", fwhere(f), "the result is read off an object (%s): not read" % fmt(ret)[:60])
+        okr = None
+    if okr is not None:
+      rep.check("RESULT.folds", okr, fwhere(f), "returns the folds in order",
+                "result is %s" % fmt(ret)[:80])
     rep.require_count("LAST", 1)
     rep.require_count("TOL", 2)
     rep.assume("round() of a non-negative product; slices beyond the end are truncated by numpy")
